@@ -1,0 +1,5 @@
+//go:build !verif
+
+package ansi
+
+func verifEscTimer(phase int) {}
